@@ -244,7 +244,8 @@ def read_tables(outdir, libname):
                         params = [x.strip() for x in mm.group(3).split(",")]
                         if params == ["void"] or params == [""]:
                             params = []
-                        types = [" ".join(x.split()[:-1]) for x in params]
+                        # (a declarator written without blanks, `char *s`, keeps its stars with the type)
+                        types = [" ".join(re.sub(r"([*&]+)(\w+)$", r"\1 \2", x).split()[:-1]) for x in params]
                         crows.append({"name": cur, "params": types, "cname": mm.group(2)})
                     cur = None
                 i += 1
